@@ -551,7 +551,70 @@ func probe(pkg string, schema ovsdb.DatabaseSchema, cm model.ClientDBModel) {
 					}
 				}
 			}
-			if model.Equal(x, y) != reflect.DeepEqual(x, y) {
+			// structured differences on one reference field
+			if rng.Intn(2) == 0 {
+				x = newFilled(t)
+				y = model.Clone(x)
+				xv, yv := reflect.ValueOf(x).Elem(), reflect.ValueOf(y).Elem()
+				i := rng.Intn(xv.NumField())
+				fx, fy := xv.Field(i), yv.Field(i)
+				switch fx.Kind() {
+				case reflect.Map:
+					if fx.IsNil() || fx.Len() == 0 {
+						m := reflect.MakeMap(fx.Type())
+						k := reflect.New(fx.Type().Key()).Elem()
+						fill(k)
+						m.SetMapIndex(k, reflect.Zero(fx.Type().Elem()))
+						fx.Set(m)
+						y = model.Clone(x)
+						yv = reflect.ValueOf(y).Elem()
+						fy = yv.Field(i)
+					}
+					k := fx.MapKeys()[rng.Intn(fx.Len())]
+					switch rng.Intn(3) {
+					case 0: // same size, another key set; the entry missing on one side holds the zero value on the other
+						fx.SetMapIndex(k, reflect.Zero(fx.Type().Elem()))
+						fy.SetMapIndex(k, reflect.Value{})
+						k2 := reflect.New(fx.Type().Key()).Elem()
+						k2.Set(k)
+						bump(k2)
+						e := reflect.New(fx.Type().Elem()).Elem()
+						fill(e)
+						fy.SetMapIndex(k2, e)
+					case 1: // one value differs
+						e := reflect.New(fx.Type().Elem()).Elem()
+						e.Set(fx.MapIndex(k))
+						bump(e)
+						fy.SetMapIndex(k, e)
+					default: // extra key
+						k2 := reflect.New(fx.Type().Key()).Elem()
+						k2.Set(k)
+						bump(k2)
+						fy.SetMapIndex(k2, reflect.Zero(fx.Type().Elem()))
+					}
+				case reflect.Slice:
+					switch {
+					case fx.Len() >= 2 && rng.Intn(2) == 0: // reordered
+						a, b := fy.Index(0).Interface(), fy.Index(1).Interface()
+						fy.Index(0).Set(reflect.ValueOf(b))
+						fy.Index(1).Set(reflect.ValueOf(a))
+					case fx.Len() >= 1:
+						bump(fy.Index(fy.Len() - 1))
+					default:
+						fy.Set(reflect.Append(fy, reflect.Zero(fx.Type().Elem())))
+					}
+				case reflect.Ptr:
+					switch {
+					case fx.IsNil():
+						fy.Set(reflect.New(fx.Type().Elem()))
+					case rng.Intn(2) == 0:
+						fy.Set(reflect.Zero(fx.Type()))
+					default:
+						bump(fy.Elem())
+					}
+				}
+			}
+			if model.Equal(x, y) != reflect.DeepEqual(x, y) || model.Equal(y, x) != reflect.DeepEqual(x, y) {
 				fmt.Printf("FAIL %s.%s: Equal is %v but the fields are %v equal: %s vs %s\n", pkg, table, model.Equal(x, y), reflect.DeepEqual(x, y), snapshot(x), snapshot(y))
 				continue
 			}
